@@ -13,6 +13,52 @@ open Line Wire Keystream Record
 
 def zeros (n : Nat) : Bytes := List.replicate n 0
 
+/-- one further (GetOutKeystream(n), write) round on the same connection, as reported by the harness:
+`klen/kerr/seqBefore/seqAfter/recLen/nrec/peer/ks80/p80/rec101`. Returns a verdict-like pair
+(isPropFail, message) or none when the round is fine. -/
+def checkRound (st : Drv.C25.Setup) (isAead : Bool) (n : Nat) (item : String) : Option (Bool × String) :=
+  match item.splitOn "/" with
+  | [klenS, kerr, sq0S, sq1S, rlS, _, peer, ksH, pH, recH] =>
+    match klenS.toNat?, sq0S.toNat?, sq1S.toNat?, rlS.toNat?, unhex ksH, unhex pH, unhex recH with
+    | some klen, some sq0, some sq1, some rl, some ksB, some p, some rec =>
+      let enl := explicitNonceLen st.s
+      let v13b : Bool := decide (st.s.vers = v13)
+      if sq0 ≠ sq1 then some (true, s!"keystream_pure:round-state-changed seq {sq0}->{sq1}")
+      else if peer ≠ "1" then some (true, "keystream_pure:round-peer-did-not-read")
+      else if !isAead then
+        if kerr ≠ "err" ∨ klen ≠ 0 then some (false, "round kerr=err") else none
+      else if kerr ≠ "ok" then some (true, "keystream_prefix:round-error-on-an-AEAD-suite")
+      else
+        let inner := rl - 5 - enl - 16
+        let frag := if v13b then inner - 1 else inner
+        let ct := rec.drop (5 + enl)
+        let k := min (min n frag) (min ksB.length (min p.length ct.length))
+        if xorBytes (ksB.take k) (p.take k) ≠ ct.take k then
+          some (true, s!"keystream_tracks_seq:xor-identity-of-a-later-record n={n} seq={sq0} k={k}")
+        else if v13b ∧ n > frag ∧ frag < ksB.length ∧ frag < ct.length ∧
+            xorBytes ((ksB.drop frag).take 1) [23] ≠ (ct.drop frag).take 1 then
+          some (true, s!"keystream_tracks_seq:inner-type-byte-of-a-later-record seq={sq0}")
+        else if klen ≠ n + 16 then some (false, s!"round klen={n + 16}")
+        else
+          -- the model's record for this sequence number, with the returned bytes as keystream oracle
+          let P : Prim := { ks := fun _ _ m => (ksB ++ zeros m).take m, tag := fun _ _ _ _ => zeros 16 }
+          let C := withPrim P (RecordToy.crypto st.s.macLen)
+          let h : Half := { st.cl.out with seq := sq0 }
+          let m := (encrypt C st.s h tApp (p.take k)).1
+          if (m.drop 5).take (enl + k) ≠ (rec.drop 5).take (enl + k) then
+            some (false, s!"round record body differs (explicit nonce / ciphertext) at seq={sq0}")
+          else none
+    | _, _, _, _, _, _, _ => some (false, "unparsable round")
+  | _ => some (false, "unparsable round")
+
+def checkRounds (st : Drv.C25.Setup) (isAead : Bool) : List Nat → List String → Option (Bool × String)
+  | n :: ns, it :: its =>
+    match checkRound st isAead n it with
+    | some r => some r
+    | none => checkRounds st isAead ns its
+  | [], [] => none
+  | _, _ => some (false, "number of rounds differs")
+
 def ks (c : Case) : Verdict :=
   let o := c.output
   let i := c.input
@@ -31,7 +77,10 @@ def ks (c : Case) : Verdict :=
       let frag := if v13b then inner - 1 else inner   -- plaintext bytes of the write in the first record
       let lenClass := if len = 0 then "len0" else if len ≤ frag then "le-frag" else "gt-frag"
       let pos := if seq0 ≤ 2 then "pos0-2" else if seq0 ≤ 10 then "pos3-10" else "pos11+"
-      let tag := s!"v{st.s.vers},{o.getD "kind" "?"},{if isAead then lenClass else "na"},{pos}{if i.getD "ku" "0" ≠ "0" then ",ku" else ""}"
+      let roundNs := (listOf (i.getD "rounds" "-")).filterMap fun r => ((r.splitOn ":").headD "").toNat?
+      let roundTag := if roundNs.isEmpty then "" else if roundNs.contains len then ",same" else ",other"
+      let tag := s!"v{st.s.vers},{o.getD "kind" "?"},{if isAead then lenClass else "na"},{pos}{if i.getD "ku" "0" ≠ "0" then ",ku" else ""}{roundTag}"
+      let roundRes := checkRounds st isAead roundNs (listOf (o.getD "rres" "-"))
       let implLens := tokLensStr (o.getD "lens" "-")
       -- ---- monitors on the implementation's output
       if o.getD "same" "?" ≠ "1" ∨ seq1 ≠ seq0 then .propFail tag s!"keystream_pure:state-changed seq0={seq0} seq1={seq1}"
@@ -46,6 +95,9 @@ def ks (c : Case) : Verdict :=
           .propFail tag s!"keystream_prefix:xor-identity k={k}"
         else if isAead ∧ v13b ∧ len > frag ∧ (xorBytes ((ksB.drop frag).take 1) [23]) ≠ (ct.drop frag).take 1 then
           .propFail tag "keystream_prefix:inner-type-byte"
+        else if (match roundRes with | some (true, _) => true | _ => false) then
+          .propFail tag (match roundRes with | some (_, m) => m | none => "")
+        else if roundRes.isSome then .diff tag (match roundRes with | some (_, m) => m | none => "")
         else
           -- ---- correspondence with the model
           let P : Prim := { ks := fun _ _ m => (ksB.take len ++ zeros m).take m, tag := fun _ _ _ _ => (ksB.drop len).take 16 }
